@@ -53,6 +53,25 @@ def install():
     import zipfile
 
     sim_time = _SimTime()
+    try:
+        # pycollada stamps every document with datetime.now()
+        import datetime as _dt
+
+        import collada.asset
+
+        class _FixedDateTime(_dt.datetime):
+            @classmethod
+            def now(cls, tz=None):
+                return cls.fromtimestamp(_clock[0], tz=_dt.timezone.utc).replace(tzinfo=None)
+
+        shim = types.ModuleType("datetime")
+        for k in dir(_dt):
+            if not k.startswith("__"):
+                setattr(shim, k, getattr(_dt, k))
+        shim.datetime = _FixedDateTime
+        collada.asset.datetime = shim
+    except Exception:
+        pass
     zipfile.time = sim_time
     tarfile.time = sim_time
     gzip.time = sim_time
